@@ -534,7 +534,7 @@ Proof. intros; unfold arg_tok, err; brk. Qed.
 (* ==================================================================================================== *)
 
 Lemma rv_on_tok : forall s t,
-  (forall h k acc x, s = SRef h (S k) acc -> t = TDouble x -> xle x xq0 = true) ->
+  (forall h k acc x, s = SRef h (S k) acc -> t = TDouble x -> negb (xlt xq0 x) = true) ->
   (forall p, ref_event s t <> Some p) -> rv_ok (ref_view s) (on_tok s t).
 Proof.
   intros s t Ha Hev. destruct s; cbn [on_tok ref_view].
@@ -559,6 +559,7 @@ Proof.
   - apply rv_v1_line_tok.
   - exact I.
   - exact I.
+  - unfold err; brk.
 Qed.
 
 Definition Link (p : pst) (m : tmem) : Prop :=
@@ -651,7 +652,7 @@ Proof.
   - (* SRef *)
     destruct left as [|k]; [apply Hd; intros; discriminate|].
     destruct t as [k0|o| |w|z|x| | |]; try (apply Hd; intros; discriminate).
-    cbn [parser_mem]. destruct (xle x xq0) eqn:Ex.
+    cbn [parser_mem]. destruct (negb (xlt xq0 x)) eqn:Ex.
     + apply safe_ret. split; [exact HI|]. cbn [on_tok]. rewrite Ex. exact I.
     + cbn [Link] in HL. destruct HL as (Hn&Hlen).
       apply safe_bind. eapply safe_weaken; [apply safe_ref_write; eauto; lia|].
@@ -718,7 +719,8 @@ Proof.
       * intros h k acc x0 _ Hc. discriminate.
       * intros q Hq. destruct p; simpl in Hq; discriminate.
     + apply safe_ret. split; simpl; [apply minv_logs; assumption | exact I].
-    + apply safe_after_tok; assumption.
+    + destruct p; try (apply safe_after_tok; assumption).
+      apply safe_ret. split; simpl; [apply minv_logs; assumption | exact I].
   - apply safe_bind. eapply safe_weaken; [apply safe_scan_tok; exact HI|].
     intros r s1 (HI1&Hs).
     destruct r as [m'|m'|m']; simpl in *.
